@@ -85,7 +85,21 @@ pub fn run_case(i: usize, rng: &mut impl RngCore, thorough: bool) -> Outcome {
         // ---- F1: byte strings into the decoder
         0 | 1 => {
             o.family = "decode";
-            let kind = (i / 10) % 12;
+            let kind = (i / 10) % 19;
+            if kind >= 12 {
+                // the serde form driven by a hostile data format: other visitor entry points, lying size hints
+                let mode = kind - 12;
+                let body = if i % 3 == 0 { shaped(1 + i % 6, 1 + (i / 6) % 8, rng).to_bytes() } else { (0..(rng.next_u32() % 300) as usize).map(|_| rng.next_u32() as u8).collect() };
+                let hint = [usize::MAX, 1 << 40, 1 << 28, 1 << 20, body.len(), 0][(i / 7) % 6];
+                o.input_bytes = body.len();
+                o.elements = body.len() / 32;
+                o.table = 0;
+                o.descr = json!({"family": "decode", "kind": "hostile serde format", "visitor_entry": (["visit_seq", "visit_byte_buf", "visit_borrowed_bytes", "visit_str", "visit_u64", "visit_map", "visit_none/unit/newtype"][mode]), "size_hint": hint, "len": body.len()});
+                observe(&mut o, || {
+                    let _ = <Proof as serde::Deserialize>::deserialize(hostile::Hostile { mode, bytes: &body, hint });
+                });
+                return o;
+            }
             let bytes: Vec<u8> = match kind {
                 0 => vec![],
                 1 => vec![(i % 256) as u8],
@@ -311,6 +325,51 @@ pub fn run_case(i: usize, rng: &mut impl RngCore, thorough: bool) -> Outcome {
         },
         _ => {
             o.family = "statement";
+            // statements a validating constructor must refuse; should it accept one, the verifier gets it
+            if (i / 10) % 5 == 4 {
+                let Some((case, proof)) = honest(rng) else {
+                    o.family = "skipped";
+                    return o;
+                };
+                let which = (i / 50) % 4;
+                let mut pr = case.promises.clone();
+                let mut cs = case.commitments.clone();
+                let mut sd = case.seed;
+                match which {
+                    0 => pr.push(None),
+                    1 => pr.push(Some(3)),
+                    2 => {
+                        if pr.len() > 1 {
+                            pr.pop();
+                        } else {
+                            pr.push(Some(0));
+                        }
+                    },
+                    _ => {
+                        // more commitments than the parameters' capacity, or a seed on an aggregate
+                        cs = (0..(2 * cap).max(2)).map(|_| <P as Gx>::random_point(rng)).collect();
+                        pr = vec![None; cs.len()];
+                        sd = Some(Scalar::ONE);
+                    },
+                }
+                match RangeStatement::init(case.params(), cs, pr.clone(), sd) {
+                    Err(_) => {
+                        o.family = "refused_by_constructor";
+                        o.descr = json!({"family": "statement", "note": "refused by the validating constructor, as it must"});
+                        return o;
+                    },
+                    Ok(st_bad) => {
+                        o.input_bytes = proof.to_bytes().len();
+                        o.elements = o.input_bytes / 32;
+                        o.descr = json!({"family": "statement", "note": "a statement the validating constructor should have refused was accepted; handed to the verifier", "cfg": case.cfg.json(), "promise_count": pr.len(), "mode": action_name(action)});
+                        let tc = case.transcript();
+                        observe(&mut o, || {
+                            let _ = RangeProof::verify_batch(&mut [tc.clone()], std::slice::from_ref(&st_bad), std::slice::from_ref(&proof), action);
+                        });
+                        return o;
+                    },
+                }
+            }
             let Some((case, proof)) = honest(rng) else {
                 o.family = "skipped";
                 return o;
@@ -348,5 +407,84 @@ fn observe(o: &mut Outcome, f: impl FnOnce()) {
     o.steps = crate::fm::ops();
     if let Err(p) = r {
         o.panic = Some(p);
+    }
+}
+
+
+/// A data format that is out to get the visitor: it answers `deserialize_bytes` (and everything else) through
+/// whichever visitor entry point it likes, with size hints that lie
+pub mod hostile {
+    use serde::de::{self, DeserializeSeed, Deserializer, IntoDeserializer, MapAccess, SeqAccess, Visitor};
+
+    pub struct Hostile<'a> {
+        pub mode: usize,
+        pub bytes: &'a [u8],
+        pub hint: usize,
+    }
+
+    struct Seq<'a> {
+        bytes: &'a [u8],
+        pos: usize,
+        hint: usize,
+    }
+
+    impl<'de, 'a> SeqAccess<'de> for Seq<'a> {
+        type Error = de::value::Error;
+
+        fn next_element_seed<T: DeserializeSeed<'de>>(&mut self, seed: T) -> Result<Option<T::Value>, Self::Error> {
+            if self.pos >= self.bytes.len() {
+                return Ok(None);
+            }
+            let b = self.bytes[self.pos];
+            self.pos += 1;
+            seed.deserialize(b.into_deserializer()).map(Some)
+        }
+
+        fn size_hint(&self) -> Option<usize> {
+            Some(self.hint)
+        }
+    }
+
+    struct EmptyMap(usize);
+
+    impl<'de> MapAccess<'de> for EmptyMap {
+        type Error = de::value::Error;
+
+        fn next_key_seed<K: DeserializeSeed<'de>>(&mut self, _seed: K) -> Result<Option<K::Value>, Self::Error> {
+            Ok(None)
+        }
+
+        fn next_value_seed<V: DeserializeSeed<'de>>(&mut self, _seed: V) -> Result<V::Value, Self::Error> {
+            Err(de::Error::custom("no value"))
+        }
+
+        fn size_hint(&self) -> Option<usize> {
+            Some(self.0)
+        }
+    }
+
+    impl<'de, 'a: 'de> Deserializer<'de> for Hostile<'a> {
+        type Error = de::value::Error;
+
+        fn deserialize_any<V: Visitor<'de>>(self, visitor: V) -> Result<V::Value, Self::Error> {
+            match self.mode {
+                0 => visitor.visit_seq(Seq { bytes: self.bytes, pos: 0, hint: self.hint }),
+                1 => visitor.visit_byte_buf(self.bytes.to_vec()),
+                2 => visitor.visit_borrowed_bytes(self.bytes),
+                3 => visitor.visit_str(&String::from_utf8_lossy(self.bytes)),
+                4 => visitor.visit_u64(self.hint as u64),
+                5 => visitor.visit_map(EmptyMap(self.hint)),
+                _ => match self.hint % 3 {
+                    0 => visitor.visit_none(),
+                    1 => visitor.visit_unit(),
+                    _ => visitor.visit_newtype_struct(Hostile { mode: 0, bytes: self.bytes, hint: self.hint }),
+                },
+            }
+        }
+
+        serde::forward_to_deserialize_any! {
+            bool i8 i16 i32 i64 i128 u8 u16 u32 u64 u128 f32 f64 char str string bytes byte_buf option unit unit_struct
+            newtype_struct seq tuple tuple_struct map struct enum identifier ignored_any
+        }
     }
 }
